@@ -38,6 +38,8 @@ ADDENDA = {
     "C15": " The end-to-end follow-through closes and reopens channels over several rounds.",
     "C17": " Plus closes towards a server that has just gone silent (must end with MissedServerHeartbeats), and sessions "
            "opened with a connection timeout shorter than the heartbeat interval.",
+    "C18": " Plus Connection::close / drop while throttled: what the channels had accepted must be pulled before the Close "
+           "(C18:accepted-lost; design level CloseTakesAll).",
     "C20": " Plus closes that cross on the wire (connection and channel level), and the compliant-server invariant "
            "NoInternalError on the model.",
 }
